@@ -85,6 +85,8 @@ pub fn run(prop: &str, leg: &str, ctx: &Ctx, rep: &mut Report) -> bool {
         ("C13", "accuracy") => c13::accuracy(ctx, rep),
         ("C13", "cross-size") => c13::cross_size(ctx, rep),
         ("C14", "differential") => c14::differential(ctx, rep),
+        ("C14", "extremes") => c14::extremes(ctx, rep),
+        ("C03", "hash-extremes") => c03::hash_extremes(ctx, rep),
         ("C12", "exhaustive") => c12::exhaustive(ctx, rep),
         _ => return false,
     }
